@@ -264,6 +264,17 @@ HARNESSES.append(
          bound="all fault schedules of the 10 fallible steps; target of 5 (fast) / 64, 70 (slow or inline) symbolic bytes, block size 128; "
                "inum, parent, name/NULL symbolic; features none / extents / inline_data per query"))
 
+HARNESSES.append(
+    dict(name="dxlookup", src="dxlookup.c",
+         funcs=["dx_lookup", "dx_search_entry", "load_logical_dir_block", "ext2fs_read_dir_block4", "ext2fs_get_dx_countlimit"],
+         extra_src=["lib/ext2fs/csum.c"],
+         configs=[{"RL": 3, "LV": 1}, {"RL": 3, "LV": 0}, {"RL": 2, "LV": 2}, {"RL": 2, "_tier": "thorough"}], unwind=4,
+         unwindset=["main.%d:60" % i for i in range(16)] + ["ref_pick.0:8", "dx_lookup.0:4", "dx_search_entry.0:5", "dx_release.0:4",
+                    "stub_read_blk64.0:60", "stub_read_blk64.1:4", "memcpy.0:60"],
+         backends=["default", "kissat"],
+         bound="root limit 2/3, two interior nodes of limit 5/6, hash_version and indirect_levels all 256 values, counts, pairs, "
+               "s_flags, seed, directory flags and the returned hash symbolic; 1- and 2-level trees"))
+
 def hash_unwind(maxlen):
     return ["dx_hack_hash.0:%d" % (maxlen + 2), "str2hashbuf.0:%d" % (maxlen + 2), "str2hashbuf.1:10",
             "ext2fs_dirhash.0:6", "ext2fs_dirhash.1:%d" % (maxlen // 32 + 3), "ext2fs_dirhash.2:%d" % (maxlen // 16 + 3),
